@@ -1,3 +1,149 @@
 import KeepVerif.Model.C15
+/-!
+# C15 — Message-driven state machine never loses early messages or skips a state
+
+All theorems quantify over every schedule `acts : List Act` (every interleaving of deliveries,
+receive-loop steps, `Initiate` returns, ticker polls, cancellation) and every chain `specs`.
+-/
 namespace KeepVerif.C15
+
+theorem run_append (specs : List Spec) (a b : List Act) :
+    run specs (a ++ b) = b.foldl (step specs) (run specs a) := by
+  simp [run, List.foldl_append]
+
+/-- invariant-by-induction over schedules -/
+theorem run_induction (specs : List Spec) (P : St → Prop) (h0 : P {})
+    (hstep : ∀ s a, P s → P (step specs s a)) (acts : List Act) : P (run specs acts) := by
+  unfold run
+  generalize ({} : St) = s0 at h0
+  induction acts generalizing s0 with
+  | nil => simpa using h0
+  | cons a r ih => simpa using ih _ (hstep _ a h0)
+
+theorem initiated_append (a b : List LogEv) : initiated (a ++ b) = initiated a ++ initiated b := by
+  induction a with
+  | nil => rfl
+  | cons x r ih => cases x <;> simp [initiated, ih]
+
+/-- **no_skip**: under every schedule the states whose `Initiate` was called are exactly
+    `0, 1, …, cur` in this order — no state of the `Next` chain is skipped or run twice. -/
+theorem no_skip (specs : List Spec) (acts : List Act) :
+    initiated (run specs acts).log = List.range ((run specs acts).cur + 1) := by
+  apply run_induction specs (fun s => initiated s.log = List.range (s.cur + 1))
+  · decide
+  · intro s a h
+    unfold step
+    split
+    · cases a <;> simp [h]
+    · cases a with
+      | deliver m => simp only []; split <;> simpa using h
+      | recv => simp only []; split <;> simp [initiated_append, initiated, h]
+      | initRet =>
+        simp only [doInitRet]; split
+        · split <;> simp [initiated_append, initiated, h]
+        · exact h
+      | initAuto =>
+        simp only [doInitRet]; split
+        · exact h
+        · split
+          · split <;> simp [initiated_append, initiated, h]
+          · exact h
+      | tick => simp only []; split <;> simp [initiated_append, initiated, h]
+      | done =>
+        simp only []
+        split
+        · exact h
+        · simpa using h
+        · split
+          · simp [initiated_append, initiated, h]
+          · split
+            · simp [initiated_append, initiated, h, List.range_succ]
+            · simp [initiated_append, initiated, h]
+      | cancel => simpa using h
+      | ctxDone => simp only []; split <;> simpa using h
+
+theorem step_hist_prefix (specs : List Spec) (s : St) (a : Act) : s.hist <+: (step specs s a).hist := by
+  unfold step doInitRet
+  cases a <;> simp only [] <;> (repeat' split) <;> simp
+
+/-- **history_monotone**: an admitted message stays in the history of every later state —
+    the history after any continuation of a schedule extends the history before it. -/
+theorem history_monotone (specs : List Spec) (acts more : List Act) :
+    (run specs acts).hist <+: (run specs (acts ++ more)).hist := by
+  rw [run_append]
+  generalize run specs acts = s
+  induction more generalizing s with
+  | nil => simp
+  | cons a r ih => exact List.IsPrefix.trans (step_hist_prefix specs s a) (ih _)
+
+/-- relation between the machine and the monitor automaton that has read its call log -/
+def Rel (specs : List Spec) (s : St) (m : Mon) : Prop :=
+  m.ok = true ∧ m.k = s.cur ∧ m.iSeen = true ∧ m.jSeen = !s.initRunning ∧
+  (m.tSeen = true ↔ s.sig = some true) ∧ m.hist = s.hist ∧
+  (m.over = true ↔ ((∃ k, s.out = some (.final k)) ∨ (∃ k, s.out = some (.errNext k)))) ∧
+  (s.sig = some true → s.initOk = true) ∧
+  (s.initOk = true → s.initRunning = false ∧ (specAt specs s.cur).initErr = false)
+
+theorem rel_step (specs : List Spec) (s : St) (a : Act)
+    (h : Rel specs s (s.log.foldl (monStep specs) {})) :
+    Rel specs (step specs s a) ((step specs s a).log.foldl (monStep specs) {}) := by
+  generalize hm : s.log.foldl (monStep specs) {} = m at h
+  obtain ⟨mk, mi, mj, mt, mover, mhist, mok⟩ := m
+  obtain ⟨h1, h2, h3, h4, h5, h6, h7, h8, h9⟩ := h
+  simp only at h1 h2 h3 h4 h5 h6 h7 h8 h9
+  subst h1 h2 h3 h6
+  have hnone : s.out.isSome = false → mover = false := by
+    intro hs; cases hb : mover
+    · rfl
+    · rcases h7.1 hb with ⟨k, hk⟩ | ⟨k, hk⟩ <;> simp [hk] at hs
+  unfold step doInitRet
+  cases a <;> simp only [] <;> (repeat' split) <;>
+    simp only [List.foldl_append, hm, List.foldl_cons, List.foldl_nil] <;>
+    clear hm
+  all_goals (try (unfold Rel; simp only [monStep]; grind))
+  all_goals (rename_i m r heq; obtain ⟨t, id⟩ := m; unfold Rel; simp only [monStep]; grind)
+
+/-- **transition_gate** (and the monitor tie): under every schedule the call log of the machine
+    is accepted by the monitor automaton `monStep`, i.e. `Initiate k+1` is called only after
+    `Next k`, which comes only after a `CanTransition k = true` evaluated on the history
+    received so far, which comes only after `Initiate k` returned without error; every
+    `Receive` goes to the current state; `CanTransition` is never called before `Initiate`
+    returned. -/
+theorem transition_gate (specs : List Spec) (acts : List Act) :
+    ((run specs acts).log.foldl (monStep specs) {}).ok = true :=
+  (run_induction specs (fun s => Rel specs s (s.log.foldl (monStep specs) {}))
+    (by simp [Rel, monStep]) (fun s a h => rel_step specs s a h) acts).1
+
+/-- **terminal_outcomes**: whatever the schedule, `Execute` returns only (a) the last state of
+    the chain, after its `Next`; (b) the `Initiate` error of the current state, and only if that
+    `Initiate` failed; (c) the `Next` error of the current state; (d) the context error, and only
+    after cancellation. -/
+theorem terminal_outcomes (specs : List Spec) (hne : specs ≠ []) (acts : List Act) :
+    (run specs acts).cur < specs.length ∧
+    ∀ o, (run specs acts).out = some o →
+      match o with
+      | .final k => k = (run specs acts).cur ∧ k + 1 = specs.length ∧ (specAt specs k).nextErr = false
+      | .errInitiate k => k = (run specs acts).cur ∧ (specAt specs k).initErr = true
+      | .errNext k => k = (run specs acts).cur ∧ (specAt specs k).nextErr = true
+      | .ctx => (run specs acts).cancelled = true := by
+  apply run_induction specs (fun s => s.cur < specs.length ∧
+      (s.sig = some false → (specAt specs s.cur).initErr = true) ∧
+      ∀ o, s.out = some o →
+      match o with
+      | .final k => k = s.cur ∧ k + 1 = specs.length ∧ (specAt specs k).nextErr = false
+      | .errInitiate k => k = s.cur ∧ (specAt specs k).initErr = true
+      | .errNext k => k = s.cur ∧ (specAt specs k).nextErr = true
+      | .ctx => s.cancelled = true) ?_ ?_ acts |>.imp id (·.2)
+  · refine ⟨?_, by simp, by simp⟩
+    cases specs with
+    | nil => exact absurd rfl hne
+    | cons a r => simp
+  · intro s a ⟨h1, h2, h3⟩
+    unfold step doInitRet
+    cases a <;> simp only [] <;> (repeat' split) <;> grind
+
+example : (run [{ need := 1 }, { need := 1 }]
+    [.deliver ⟨1, 7⟩, .recv, .initRet, .deliver ⟨0, 8⟩, .recv, .tick, .done, .initRet, .tick, .done]).out
+    = some (.final 1) := by decide
+
 end KeepVerif.C15
